@@ -401,6 +401,29 @@ def run(ctx, R, tier):
     R.check(ok, "C03-R6", "_RemoteMethod.__call__|reraise-last", "the error is re-raised on the last attempt", rm.loc(),
             "the last attempt's error is not re-raised under `attempt >= max_retries`: a failed call would return None")
 
+    # the retry budget is the proxy's current one: a _RemoteMethod captures _pyroMaxRetries when it is built, so it must be built per attribute access and
+    # handed out, never remembered (in the proxy's __dict__, an attribute, a cache) where a later change of the setting would not reach it
+    n_ctor = 0
+    for g in [x for x in p.functions.values() if x.module.name == "Pyro5.client"]:
+        for c in [x for x in walk_no_nested(g.node) if isinstance(x, ast.Call) and ctx.resolves_to_object(x.func, g, "Pyro5.client._RemoteMethod")]:
+            n_ctor += 1
+            st = enclosing_stmt(c)
+            ok = (isinstance(st, ast.Return) and st.value is c) or (isinstance(getattr(c, "_parent", None), ast.Call) and c._parent.func is c)
+            why = ""
+            if not ok:
+                kept = None
+                if isinstance(st, ast.Assign) and len(st.targets) == 1 and isinstance(st.targets[0], ast.Name) and st.value is c:
+                    nm = st.targets[0].id
+                    uses = [x for x in walk_no_nested(g.node) if isinstance(x, ast.Name) and x.id == nm and isinstance(x.ctx, ast.Load)]
+                    kept = [x for x in uses if not ((isinstance(enclosing_stmt(x), ast.Return) and enclosing_stmt(x).value is x) or
+                                                    (isinstance(getattr(x, "_parent", None), ast.Call) and x._parent.func is x))]     # returned, or called on the spot
+                    ok = bool(uses) and not kept
+                why = "the _RemoteMethod built at %s is %s: it keeps the retry budget of the moment it was created, a later `proxy._pyroMaxRetries = 0` " \
+                      "does not stop it from re-sending (and re-executing) a call" % (g.loc(c), "stored (`%s`)" % unparse(enclosing_stmt(kept[0])) if kept else "not simply returned")
+            R.check(ok, "C03-R6", "%s|remote-method-not-remembered" % g.qualname.split("Pyro5.client.")[-1], "a _RemoteMethod is built per access and handed out, never stored", g.loc(c), why)
+    if n_ctor < 2:
+        raise AnalysisError("client.py: fewer _RemoteMethod constructions than expected (%d)" % n_ctor)
+
     # ---------------------------------------------------------------- R7
     rs = ctx.fn("Pyro5.protocol.recv_stub")
     rcfg = ctx.cfg(rs)
